@@ -6,3 +6,6 @@ import "sync"
 
 // simBeforeLock is no-op unless library is built with tag `verif` (verification-only seam).
 func simBeforeLock(_ *sync.RWMutex, _ bool) {}
+
+// simAfterLock is no-op unless library is built with tag `verif` (verification-only seam).
+func simAfterLock(_ *sync.RWMutex) {}
